@@ -69,6 +69,7 @@ Theorem handle_honest_relay e st ci st' id el salt a payload i :
   decode_addr (encode_addr a) = Some a ->
   dial ci a = inl i ->
   handle e st ci = (st', Ok [EAuth id; EDial a i; EToTarget payload; ETargetFin; EToClient (ci_target_out ci);
-                            EClosed (if ci_target_reset ci then st_relay_target else st_ok) (zlen (ci_bytes ci)) (zlen payload) (zlen (ci_target_out ci)); EClose AfterRelay]).
+                            EClosed (if ci_client_reset ci then st_relay_client else if ci_target_reset ci then st_relay_target else st_ok)
+                                    (zlen (ci_bytes ci)) (zlen payload) (zlen (ci_target_out ci)); EClose AfterRelay]).
 Proof. exact (handle_honest_relay_lemma e st ci st' id el salt a payload i). Qed.
 Print Assumptions handle_honest_relay.
